@@ -76,8 +76,19 @@ func (g *vfGen) tarArchive() []byte {
 		if g.intn(5) == 0 {
 			name = append(name, []byte("\xc3\xa9\xe2\x82\xac")...)
 		}
+		if i == 0 && g.intn(6) == 0 {
+			// names next to the one marker the check excludes (`/gpkg-1` followed by NUL inside the name field):
+			// the same letters without the slash in front, with something behind, or filling the field to its end
+			nm := []string{"gpkg-1", "gpkg-1/", "app/gpkg-1/", "x/gpkg-10", "a/gpkg-1.txt", "gpkg-1/data", "dir/gpkg-", strings.Repeat("d", 93) + "/gpkg-1", "app/gpkg-1"}
+			name = []byte(nm[g.intn(len(nm))])
+		}
 		types := []byte{vtar.TypeReg, vtar.TypeDir, vtar.TypeSymlink, vtar.TypeLink, vtar.TypeFifo, vtar.TypeChar, vtar.TypeBlock}
 		tf := types[g.intn(len(types))]
+		if g.intn(6) == 0 {
+			// type flags beyond the ones the standard library names: vendor extensions (volume label, dump directory,
+			// multi-volume, Solaris ACL / extended attributes), which the writer stores as they are
+			tf = []byte{'V', 'D', 'M', 'X', 'A', 'N', 'I', 'E', 'Z', 0}[g.intn(10)]
+		}
 		size := int64(0)
 		if tf == vtar.TypeReg {
 			size = int64(g.intn(700))
